@@ -1,6 +1,6 @@
 use std::io::{self, BufRead};
 
-use super::{CARRIAGE_RETURN, LINE_FEED, read_line, read_u8};
+use super::{CARRIAGE_RETURN, LINE_FEED, fill_buf, read_line, read_u8};
 use crate::record::Definition;
 
 pub(crate) fn read_definition<R>(reader: &mut R, definition: &mut Definition) -> io::Result<usize>
@@ -31,7 +31,7 @@ where
     let mut len = 1;
 
     loop {
-        let src = reader.fill_buf()?;
+        let src = fill_buf(reader)?;
 
         if src.is_empty() {
             break;
